@@ -335,15 +335,32 @@ def declare_group(w):
                              z3.Implies(z3.And(Jg >= 0, Jg < slen(L)), gid(h, L[Jg]) != new_id)),    # not the id of a current member
                       z3.And(h2("Group", a.self, "_autoidcounter") == c, z3.Select(att2.v[0], ID)))]
 
+    # C05: a taken explicit id is refused here, i.e. BEFORE makegateway creates the interpreter process (the auto-id branch as above)
+    def explicit(h, spec):
+        att = h.sv("XSpec", spec, "$attr")
+        return z3.And(z3.Select(att.v[0], ID), z3.Not(z3.Select(att.v[1][0], ID)))
+
+    def explicit_id(h, spec):
+        return z3.Select(h.sv("XSpec", spec, "$attr").v[1][1], ID)
+
+    def taken(a, h):
+        L = gws(h, a.self)
+        q = z3.Int("qt")
+        return z3.And(explicit(h, a.spec), z3.Exists([q], z3.And(q >= 0, q < slen(L), gid(h, L[q]) == explicit_id(h, a.spec))))
+
+    def alloc_explicit_post(a, h, h2, r):
+        L = gws(h, a.self)
+        return alloc_post(a, h, h2, r) + [z3.Implies(z3.And(explicit(h, a.spec), Jg >= 0, Jg < slen(L)), gid(h, L[Jg]) != explicit_id(h, a.spec))]
+
     w.add(Contract(
         f"{MULTI}:Group.allocate_id", {"self": REF("Group"), "spec": REF("XSpec")},
-        requires=lambda a, h: [("spec-not-none", a.spec != 0), ("lock-exists", h("Group", a.self, "_autoidlock") != 0)],
+        requires=lambda a, h: [("spec-not-none", a.spec != 0), ("lock-exists", h("Group", a.self, "_autoidlock") != 0), ("members-nonnull", members_nonnull_all(h, a.self))],
         linearize_at_lock=True,
         modifies=lambda a, h: [("Group", a.self, "_autoidcounter"), ("XSpec", a.spec, "$attr"), ("XSpec", a.spec, "$keys")],
-        cases=[Case("ok", post=alloc_post),
-               Case("taken", "raise", "ValueError", when=lambda a, h: spec_id_none(h, a.spec),
-                    post=lambda a, h, h2, e: [h2("Group", a.self, "_autoidcounter") == h("Group", a.self, "_autoidcounter") + 1])],
-        props=["C20"]))
+        cases=[Case("ok", post=alloc_explicit_post),
+               Case("taken", "raise", "ValueError", when=lambda a, h: z3.Or(spec_id_none(h, a.spec), taken(a, h)),
+                    post=lambda a, h, h2, e: [z3.Implies(z3.Not(spec_id_none(h, a.spec)), h2("Group", a.self, "_autoidcounter") == h("Group", a.self, "_autoidcounter"))])],
+        props=["C20", "C05"]))
 
     # XSpec attribute reads that go through __dict__ / class default / __getattr__: spec.id
     def spec_attr_read(name):
